@@ -27,7 +27,7 @@ THEOREMS_OPS = [
     "C29_commit_atomic_partial", "C29_commit_atomic_refuted", "C29_commit_keeps_refs_worktree",
     "C29_pull_atomic_partial", "C29_pull_atomic_refuted", "C29_pull_unrepaired_refuted",
     "C29_pull_no_late_refusal", "C29_xstep_atomic_partial",
-    "C29_effects_sound", "C29_fault_single_store_atomic", "C29_fault_prefix_refuted", "C29_fault_commit_all_refuted",
+    "C29_effects_sound", "C29_fault_refused_atomic", "C29_fault_single_store_atomic", "C29_fault_prefix_refuted", "C29_fault_commit_all_refuted",
 ]
 
 MODEL_FILES_OPS = ["Porcelain.v", "PorcelainOps.v"]
@@ -134,7 +134,7 @@ def df_free(c):
 
 
 def in_model(c):
-    if c.get("fault") or not df_free(c):
+    if not df_free(c):
         return False
     fps = file_paths(c)
     for e in [e for cm in c["commits"] for e in cm["tree"]] + c["index"] + c["wt"]:
@@ -161,6 +161,8 @@ def model_expr(c):
     st = "(mkR [%s] %s (%s) %s %s %s)" % (
         "; ".join("mkCmt %s [%s]" % (coq_fmap(cm["tree"]), "; ".join(coq_Z(p) for p in cm.get("parents", []))) for cm in c["commits"]),
         coq_refs(c["refs"]), head, coq_fmap(c["index"]), coq_fmap(c["wt"]), coq_bool(c.get("user", False)))
+    if c.get("fault"):
+        return "c29ops_fault_base %s [%s] (%s)" % (st, "; ".join(coq_op(o) for o in c["ops"][:-1]), coq_op(c["ops"][-1]))
     return "c29ops_run %s [%s]" % (st, "; ".join(coq_op(o) for o in c["ops"]))
 
 
@@ -232,7 +234,7 @@ def gen_repo(rng, bucket):
         else:
             parents = sorted(set([rng.randrange(i), rng.randrange(i)]), reverse=True)
         commits.append({"tree": mutate(rng, commits[parents[0]]["tree"], PATHS, 0.5), "parents": parents})
-    nloc = ncom if bucket != "pull" else rng.randrange(1, ncom + 1)
+    nloc = ncom if bucket not in ("pull", "calm") else rng.randrange(1, ncom + 1)
     refs = [["refs/heads/master", rng.randrange(nloc)]]
     for b in ["refs/heads/other", "refs/heads/f/x", "refs/tags/t"]:
         if rng.random() < 0.5:
@@ -257,7 +259,7 @@ def gen_repo(rng, bucket):
     hc = head[1] if head[0] == "det" else dict((a, b) for a, b in refs).get(head[1])
     htree = commits[hc]["tree"] if hc is not None and 0 <= hc < ncom else []
     index = [list(e) for e in htree]
-    mods = rng.randrange(0, 3) if bucket != "clean" else 0
+    mods = rng.randrange(0, 3) if bucket not in ("clean", "calm") else 0
     for _ in range(mods):
         a = rng.choice(["new", "mod", "del"])
         if a == "new":
@@ -270,7 +272,7 @@ def gen_repo(rng, bucket):
         elif index:
             index.pop(rng.randrange(len(index)))
     wt = [list(e) for e in index]
-    k = rng.randrange(0, 3) if bucket != "clean" else 0
+    k = rng.randrange(0, 3) if bucket not in ("clean", "calm") else 0
     if bucket == "unstaged":
         k = rng.randrange(1, 3)
     for _ in range(k):
@@ -397,8 +399,9 @@ def rand_edit(rng, c):
 OPGEN = {"restore": op_restore, "add": op_add, "commit": op_commit, "merge": op_merge, "pull": op_pull}
 
 
-def gen_case(rng, bucket):
-    """bucket: <op> | <op>-err | unstaged (pull / commit on a dirty worktree) | random"""
+def gen_case(rng, bucket, calm=False):
+    """bucket: <op> | <op>-err | unstaged (pull / commit on a dirty worktree) | random;
+    calm: mostly clean repositories, so that the main op usually goes through (fault suite)"""
     kind, errors = bucket, False
     if bucket.endswith("-err"):
         kind, errors = bucket[:-4], True
@@ -410,6 +413,8 @@ def gen_case(rng, bucket):
         kind = rng.choice(list(OPGEN))
     if kind == "pull" and repo_bucket not in ("errors", "unstaged"):
         repo_bucket = "pull" if rng.random() < 0.7 else "clean"
+    if calm and kind in ("pull", "merge") and rng.random() < 0.7:
+        repo_bucket = "calm"
     c = gen_repo(rng, repo_bucket)
     c["bucket"] = bucket
     if bucket == "commit-all-empty":
@@ -528,6 +533,103 @@ class Ops(Suite):
 
 # ------------------------------------------------------------------ injected faults
 
+def parse_out(text):
+    """canonical observable text -> nested python lists of atoms"""
+    toks = text.split()
+    pos = [0]
+
+    def item():
+        t = toks[pos[0]]
+        pos[0] += 1
+        if t == "(":
+            l = []
+            while toks[pos[0]] != ")":
+                l.append(item())
+            pos[0] += 1
+            return l
+        return t
+    return item()
+
+
+def unx(a):
+    return bytes.fromhex(a[1:]).decode("utf-8", "replace")
+
+
+def model_state(snap):
+    """parsed xsnap -> {"head", "refs", "index", "wt"} in the shape of the harness snapshots (without remote-tracking refs)"""
+    h = snap[0]
+    head = ["sym", unx(h[1])] if h[0] == "sym" else ["det", int(h[1])]
+    refs = {unx(r[0]): int(r[1]) for r in snap[1]}
+    return {"head": head, "refs": refs, "index": {unx(e[0]): (e[1], unx(e[2])) for e in snap[2]},
+            "wt": {unx(e[0]): (e[1], unx(e[2])) for e in snap[3]}}
+
+
+def impl_state(snap):
+    return {"head": list(snap["head"][:2]), "refs": {r[0]: r[1] for r in snap.get("refs") or []},
+            "index": {e[0]: (e[1], e[2]) for e in snap.get("index") or []},
+            "wt": {e[0]: (e[1], e[2]) for e in snap.get("wt") or []}}
+
+
+def drop_remote(st):
+    st = dict(st)
+    st["refs"] = {n: c for n, c in st["refs"].items() if not n.startswith("refs/remotes/")}
+    return st
+
+
+def apply_effect(st, f):
+    st = {"head": list(st["head"]), "refs": dict(st["refs"]), "index": dict(st["index"]), "wt": dict(st["wt"])}
+    k = f[0]
+    if k == "setref":
+        st["refs"][unx(f[1])] = int(f[2])
+    elif k == "sethead":
+        st["head"] = ["det", int(f[1])]
+    elif k == "setindex":
+        st["index"] = {unx(e[0]): (e[1], unx(e[2])) for e in f[1]}
+    elif k == "write":
+        st["wt"][unx(f[1])] = (f[2], unx(f[3]))
+    elif k == "remove":
+        st["wt"].pop(unx(f[1]), None)
+    return st
+
+
+def reachable_by_fault(pre, effs, post):
+    """is `post` a state the model's stores can leave behind: a prefix of the effect list, where inside a run of
+    worktree-file effects (whose order the merkletrie walk decides) any subset of the paths may be done or half done.
+    Returns None (not reachable), "final" (all stores done) or "prefix"."""
+    post = drop_remote(post)
+    cur = pre
+    i, n = 0, len(effs)
+    while i < n:
+        if drop_remote(cur) == post:
+            return "prefix"
+        if effs[i][0] in ("write", "remove"):
+            j = i
+            while j < n and effs[j][0] in ("write", "remove"):
+                j += 1
+            group = effs[i:j]
+            opts = {}
+            tmp = cur
+            for f in group:
+                p = unx(f[1])
+                opts.setdefault(p, [cur["wt"].get(p)])
+                tmp = apply_effect(tmp, f)
+                opts[p].append(tmp["wt"].get(p))
+            c0 = drop_remote(cur)
+            if (post["head"] == c0["head"] and post["refs"] == c0["refs"] and post["index"] == c0["index"]
+                    and set(post["wt"]) | set(c0["wt"]) <= set(opts) | (set(post["wt"]) & set(c0["wt"]))
+                    and all(post["wt"].get(p) == c0["wt"].get(p) for p in set(post["wt"]) | set(c0["wt"]) if p not in opts)
+                    and all(post["wt"].get(p) in v for p, v in opts.items())):
+                return "prefix"
+            cur = tmp
+            i = j
+            continue
+        cur = apply_effect(cur, effs[i])
+        i += 1
+    if drop_remote(cur) == post:
+        return "final"
+    return None
+
+
 def call_kind(call):
     """'Write .git/refs/heads/master' -> (method, area)"""
     m, _, p = (call or "").partition(" ")
@@ -544,27 +646,31 @@ def call_kind(call):
     return m, area
 
 
-def fault_class(op, run):
-    """narrow classes of the refusals under an injected fault that leave a changed repository:
-    keyed on the operation, on where the failing call was, and on what had changed by then"""
-    k = op["op"]
-    d = set(run["diff"]) - {"stray"}
+PARTIAL = {"restore": "fault-restore-partial", "commit": "fault-commit-all-partial", "pull": "fault-pull-partial"}
+
+
+def fault_class(op, run, reach):
+    """narrow classes of the refusals under an injected fault that leave a changed repository.
+    reach: what the model's store list says about the state left behind (None / "prefix" / "final")"""
+    d = set(run["diff"])
     m, area = call_kind(run["call"])
-    unreadable = json.dumps(run.get("snap") or {}).find("unreadable") >= 0
-    if unreadable and area == "ref":
-        return "fault-ref-file-torn"
-    if unreadable and area == "index":
-        return "fault-index-file-torn"
-    if d <= {"refs", "raw"} and k in ("commit", "merge", "pull") and area == "ref":
-        return "fault-ref-stored-then-error"
-    if k == "restore" and d <= {"index", "wt", "raw"}:
-        return "fault-restore-half-done"
-    if k == "commit" and op.get("all") and d <= {"index", "raw"}:
-        return "fault-commit-all-index-stored"
-    if k == "pull" and d <= {"refs", "raw", "index", "wt", "head"}:
-        return "fault-pull-half-done"
-    if k in ("add", "addall") and d <= {"index"} and area == "index":
-        return "fault-add-index-stored-then-error"
+    if m == "Write":
+        # files are written in place: the failing (torn) write leaves a partial file
+        if area == "ref" and d & {"refs", "raw", "head"}:
+            return "fault-ref-write-torn"
+        if area == "index" and "index" in d:
+            return "fault-index-write-torn"
+        if area == "worktree" and "wt" in d:
+            return "fault-worktree-write-torn"
+    if "stray" in d:
+        return "other"
+    if reach == "final":
+        return "fault-error-after-last-store"
+    if reach == "prefix":
+        k = op["op"]
+        if k == "commit" and not op.get("all"):
+            return "other"
+        return PARTIAL.get(k, "other")
     return "other"
 
 
@@ -572,20 +678,24 @@ class Faults(Suite):
     name = "opsfault"
     go_cmd = "c29ops"
     coq_imports = COQ_IMPORTS
-    quick_n = 14
-    thorough_n = 150
+    quick_n = 12
+    thorough_n = 60
     buckets = [(3, "restore"), (2, "add"), (4, "commit"), (2, "merge"), (4, "pull"), (1, "commit-all-empty")]
 
     def gen(self, rng, n, tier):
         out = []
         while len(out) < n:
-            c = gen_case(rng, pick_weighted(rng, self.buckets))
-            c["ops"] = [o for o in c["ops"] if o["op"] in PORCELAIN][:1]
-            if not c["ops"] or not df_free(c):
+            c = gen_case(rng, pick_weighted(rng, self.buckets), calm=True)
+            ops = c["ops"]
+            last = max([i for i, o in enumerate(ops) if o["op"] in PORCELAIN] or [-1])
+            if last < 0:
+                continue
+            c["ops"] = ops[:last + 1]
+            if not in_model(c):
                 continue
             c["fault"] = True
             if tier == "quick":
-                c["maxk"] = 60
+                c["maxk"] = 90
                 c["koff"] = rng.randrange(1000)
             out.append(c)
         return out
@@ -593,10 +703,26 @@ class Faults(Suite):
     def nontrivial(self, c):
         return bool(c["ops"])
 
+    def model_expr(self, c):
+        return model_expr(c)
+
+    def effects_expr(self, c):
+        head = "HSym %s" % hx(c["head"][1]) if c["head"][0] == "sym" else "HDet %s" % coq_Z(c["head"][1])
+        st = "(mkR [%s] %s (%s) %s %s %s)" % (
+            "; ".join("mkCmt %s [%s]" % (coq_fmap(cm["tree"]), "; ".join(coq_Z(p) for p in cm.get("parents", []))) for cm in c["commits"]),
+            coq_refs(c["refs"]), head, coq_fmap(c["index"]), coq_fmap(c["wt"]), coq_bool(c.get("user", False)))
+        return "c29ops_effects %s [%s] (%s)" % (st, "; ".join(coq_op(o) for o in c["ops"][:-1]), coq_op(c["ops"][-1]))
+
     def oracle(self, ctx, cases, impl, model):
         fails = {}
-        self.runs = self.refusals = self.changed = 0
+        self.runs = self.refusals = self.changed = self.swallowed = 0
         self.classes = {}
+        self.reported = {}
+        self.others = []
+        self.model_bad = []
+        todo = [c for c in cases if in_model(c)]
+        outs = ctx.coq_eval(COQ_IMPORTS, [self.effects_expr(c) for c in todo], chunk=8) if todo else []
+        effs = {c["id"]: (parse_out(o) if o else None) for c, o in zip(todo, outs)}
         for c in cases:
             r = impl.get(c["id"])
             ex = (r or {}).get("extra") or {}
@@ -604,24 +730,53 @@ class Faults(Suite):
                 fails[c["id"]] = "other|no reply from the implementation"
                 continue
             op = c["ops"][-1]
+            mo = effs.get(c["id"])
+            pre_m = model_state(mo[0]) if mo else None
+            if mo:
+                # the undisturbed run must be the model's: same state before, same result class
+                base_ok = (ex["base"]["res"] == "ok") == (mo[1] == ["ok"])
+                if drop_remote(pre_m) != drop_remote(impl_state(ex["pre"])) or not base_ok:
+                    self.model_bad.append(c["id"])
+                    mo = None
             worst = None
+            seen = {}
             for run in ex["runs"]:
                 self.runs += 1
                 if run["res"] == "ok":
+                    self.swallowed += 1
                     continue
                 self.refusals += 1
                 if run["res"] == "panic":
                     worst = ("other", run)
                     break
-                if not run["diff"] or run["diff"] == ["stray"] and False:
+                if not run["diff"]:
                     continue
                 self.changed += 1
-                cls = fault_class(op, run)
+                if mo and run.get("snap"):
+                    reach = reachable_by_fault(pre_m, mo[2], impl_state(run["snap"]))
+                else:
+                    # no model for this case (or the undisturbed run already differs from it, which the impl-vs-model
+                    # comparison reports): classify by the kind of operation alone
+                    reach = "prefix" if op["op"] in ("restore", "pull") or (op["op"] == "commit" and op.get("all")) else "final"
+                if run["res"] == ex["base"]["res"] and run["diff"] == ex["base"]["diff"]:
+                    # the undisturbed run is itself a refusal that changes something (a finding of the ops suite)
+                    cls = refusal_class(op, run["res"], run["diff"], ex["pre"])
+                else:
+                    cls = fault_class(op, run, reach)
+                if cls == "other":
+                    self.others.append((c["id"], run["k"], run["call"], run["res"], run["diff"], reach))
                 self.classes[cls] = self.classes.get(cls, 0) + 1
-                if worst is None or (cls == "other" and worst[0] != "other"):
-                    worst = (cls, run)
+                seen.setdefault(cls, run)
+            if worst is None and seen:
+                # one class is reported per case: an unknown one if there is any, otherwise the one reported least so far
+                # (ties: the classes only one kind of operation can show first)
+                order = ["other", "fault-restore-partial", "fault-commit-all-partial", "fault-pull-partial", "fault-worktree-write-torn",
+                         "fault-index-write-torn", "fault-error-after-last-store", "fault-ref-write-torn"]
+                cls = min(seen, key=lambda k: (k != "other", k != c.get("focus"), self.reported.get(k, 0), order.index(k) if k in order else 99))
+                worst = (cls, seen[cls])
             if worst:
                 cls, run = worst
+                self.reported[cls] = self.reported.get(cls, 0) + 1
                 fails[c["id"]] = "%s|%s with call %d failing (%s) returned %s but %s changed" % (
                     cls, json.dumps(op), run["k"], run["call"], run["res"], run["diff"])
         return fails
@@ -632,7 +787,9 @@ class Faults(Suite):
 
     def extra(self, ctx, cases, impl, model):
         return {"fault_runs": getattr(self, "runs", 0), "fault_refusals": getattr(self, "refusals", 0),
-                "fault_refusals_with_change": getattr(self, "changed", 0), "fault_classes": getattr(self, "classes", {})}
+                "fault_swallowed": getattr(self, "swallowed", 0),
+                "fault_refusals_with_change": getattr(self, "changed", 0), "fault_classes": getattr(self, "classes", {}),
+                "cases_where_model_and_undisturbed_run_differ": getattr(self, "model_bad", [])}
 
 
 SUITES_OPS = [Ops(), Faults()]
